@@ -557,6 +557,16 @@ func checkC15(p *pue, c *c15Case, r *vstat.Run) outcome {
 				if raw := int(pl2.RawCursor()); raw != end || *pl2.RawPeek() != ptoks[end] {
 					return violationf("trailing-position", "%s: after ParseFromLexer with AllowTrailing the caller's lexer has raw cursor %d (token %#v), the parse consumed %d tokens of the raw stream (next: %#v)", desc, raw, *pl2.RawPeek(), end, ptoks[end])
 				}
+				// ... and by the count of ordinary tokens consumed so far
+				nonElided := 0
+				for i := 0; i < end; i++ {
+					if !lx.Toks[i].Elided && !lx.Toks[i].EOF {
+						nonElided++
+					}
+				}
+				if got := pl2.Cursor(); got != nonElided {
+					return violationf("trailing-position", "%s: after ParseFromLexer with AllowTrailing the caller's lexer reports Cursor() = %d, the parse consumed %d tokens that are not elided", desc, got, nonElided)
+				}
 				if r != nil && !ptoks[want].EOF() {
 					r.Count("trailing_input_left_for_the_caller")
 				}
